@@ -271,6 +271,7 @@ Definition mk_event (ty : string) (payload : cvalue) : option event :=
       else if name_eqb ty "epic" then mk_item3 sty "EpicAssignEvent" "ID" "EpicID" "TS" fs EEpic
       else if name_eqb ty "state" then mk_item3 sty "StateEvent" "ID" "NewState" "TS" fs EState
       else if name_eqb ty "claim" then mk_item3 sty "ClaimEvent" "ID" "AgentID" "TS" fs EClaim
+      else if name_eqb ty "tombstone" then mk_item3 sty "TombstoneEvent" "ID" "AgentID" "TS" fs ETomb
       else if name_eqb ty "result" then
         if name_eqb sty "ResultEvent"
            && names_ok ["TaskID"; "Summary"; "Path"; "Sha256AtAttach"; "MtimeAtAttach"; "GitCommitAtAttach"; "TS"] [] fs then
